@@ -156,6 +156,22 @@ def convex_qp(rng, n, m, var_kinds=None, row_kinds=None, fmt="coo", quad_rows=Fa
     return prob, x0, {"var_kinds": var_kinds, "row_kinds": row_kinds, "feasible_point": xf}
 
 
+def saddle_problem(rng, n, lamb):
+    """Box-constrained quadratic with curvature exactly -lamb in one direction: with lamb_init = lamb the first Newton
+    matrix (H + lamb I) is exactly singular, so a direct linear solver must report failure and the step be retried."""
+    kappa = rng.uniform(0.5, 3.0, size=n)
+    kappa[0] = -float(lamb)
+    tgt = rng.uniform(-0.5, 1.5, size=n)
+    Q = np.diag(kappa)
+    c = -kappa * tgt
+    c[0] = 0.0
+    xl = np.full(n, -1.0)
+    xu = np.full(n, 2.0 + rng.integers(0, 3))
+    prob = GenProblem(Q, c, np.zeros((0, n)), np.zeros((0, n)), np.zeros(0), np.zeros(0), np.zeros(0), xl, xu)
+    x0 = np.concatenate([[0.5], rng.uniform(-0.5, 1.5, size=n - 1)])
+    return prob, x0, {}
+
+
 def simplex_qp(rng, n):
     """Strictly convex QP over the unit simplex (sum x = 1, x >= 0, some variables also bounded above) with positive linear
     costs, started at the origin: an *infeasible vertex* of the box with the gradient pushing outward."""
